@@ -8,7 +8,8 @@ Open Scope Z_scope.
 (* name of the parameter an OutOfRange error talks about *)
 Inductive oor_name :=
 | NYear | NMonth | NDay | NDoy | NHour | NMinute | NSecond | NSeconds | NNanoseconds
-| NValue | NTimestamp | NCustom.
+| NValue | NTimestamp | NCustom
+| NYearZero.   (* name "year" with the custom text "Year cannot be 0..." *)
 
 Inductive err :=
 | EOor (name : oor_name) (mn mx v : Z)       (* AstrolabeError::OutOfRange {name,min,max,value} *)
